@@ -113,11 +113,11 @@ def make_requests(scenarios, entry, nsched, seed0, nws=None, keep=10, rare_max=6
                  "terminates": bool(s.get("terminates"))}
             if s.get("expected_outcome") is not None:
                 m["expected_outcome"] = s["expected_outcome"]
-            driver = "default" if i == 0 else "random"
+            driver = "default" if i == 0 else ("pct" if i % 3 == 2 else "random")
             reqs.append({"id": "%s#%d" % (s["name"], i), "group": s["name"], "keep": keep, "rare_max": rare_max,
                          "src": src, "nw": nw, "driver": driver,
                          "seed": seed0 * 1000003 + i * 7919 + len(reqs), "quanta": QUANTA if i else [1000],
-                         "max_steps": 6000, "meta": m, "io": bool(s.get("io"))})
+                         "max_steps": 6000, "meta": m, "io": bool(s.get("io")), "pct_changes": i % 4})
     return reqs
 
 
@@ -171,6 +171,9 @@ def split_traces(tracefile):
 def select_scenarios(prop, tier):
     nws = (2,) if tier == "quick" else (1, 2, 3)
     fams = [s for s in families.all_families(nws) if prop in s["props"]]
+    if prop == "C05":
+        # seeded sample of the cross product (source lists of length <= 3) x (mailbox pre-loads) x (late arrivals)
+        fams += families.select_product(common.seed(), 8 if tier == "quick" else 60, 2)
     return fams
 
 
@@ -188,7 +191,14 @@ def run(prop, tier):
                 for s in mc_scenarios}
         for fut in cf.as_completed(futs):
             s = futs[fut]
-            res = fut.result()
+            try:
+                res = fut.result()
+            except ToolError as e:
+                if "timeout" not in str(e):
+                    raise
+                # too large for this tier's budget: the scenario is still run on the real code below
+                check.cov.setdefault("model_check_timeouts", []).append(s["name"])
+                continue
             check.add_tlc("mc:" + s["name"], res)
             if getattr(res, "expected_outcome", None) is not None:
                 s["expected_outcome"] = res.expected_outcome
